@@ -119,7 +119,7 @@ Lemma CA_step x0 h e :
   CA x0 h (final cstep (c_init x0) h) -> CA x0 (h ++ [e]) (fst (cstep (final cstep (c_init x0) h) e)).
 Proof.
   set (s := final cstep (c_init x0) h). intro I.
-  destruct e as [w|w ft|f|w|w|w|w].
+  destruct e as [w|w ft|f|w|w|w|w|].
   - simpl. now apply (CA_req x0 h s (CReq w) w).
   - simpl. now apply (CA_req x0 h s (CReqAuth w ft) w).
   - rewrite cstep_frame. destruct (c_frame_answer f) as [[key d]|] eqn:Ea; simpl;
@@ -140,6 +140,7 @@ Proof.
   - simpl. destruct (wget w (c_wait s)) as [d|] eqn:E; simpl; apply (CA_weaken x0 h s); simpl; auto.
     intros w' d' H. now apply (aget_adel_some _ nat_eqb_spec) in H.
   - simpl. apply (CA_weaken x0 h s); simpl; auto.
+  - simpl. apply (CA_weaken x0 h s); simpl; auto.
 Qed.
 
 Lemma CA_reach x0 h : CA x0 h (final cstep (c_init x0) h).
@@ -157,7 +158,7 @@ Lemma comp_deliver_matches x0 pre e w p (err : bool) :
     c_key_at (final cstep (c_init x0) h1) r = Some key /\ c_frame_answer f = Some (key, (p, err)).
 Proof.
   destruct (CA_reach x0 pre) as [Q W]. set (s := final cstep (c_init x0) pre) in *.
-  destruct e as [w'|w' ft|f|w'|w'|w'|w'].
+  destruct e as [w'|w' ft|f|w'|w'|w'|w'|].
   - simpl. intros [].
   - simpl. intros [].
   - destruct (frame_outputs s f) as [->|(tag & _ & ->)]; [intros []|].
@@ -171,13 +172,14 @@ Proof.
   - simpl. destruct (wget w' (c_wait s)); simpl; [|intros []]. intros [H|[]]. destruct err; discriminate.
   - simpl. destruct (wget w' (c_wait s)); simpl; [|intros []]. intros [H|[]]. destruct err; discriminate.
   - simpl. intros [H|[]]. destruct err; discriminate.
+  - simpl. intros [].
 Qed.
 
 (* --------------------------------------------------------------------------
    C4  transaction ids are never reused                                        *)
 Lemma c_next_step s e : (c_next s <= c_next (fst (cstep s e)))%N.
 Proof.
-  destruct e as [w|w ft|f|w|w|w|w]; try (simpl; lia).
+  destruct e as [w|w ft|f|w|w|w|w|]; try (simpl; lia).
   - rewrite cstep_frame. destruct (c_frame_answer f) as [[key d]|]; simpl; [|lia].
     unfold c_pop. destruct (qget key (c_q s)); simpl; lia.
   - simpl. destruct (wget w (c_wait s)) as [[[p em]|]|]; simpl; lia.
@@ -272,7 +274,7 @@ Definition CC (h : list cev) (o : list cout) (s : cst) : Prop :=
 Lemma CC_step h o s e : CC h o s -> CC (h ++ [e]) (o ++ snd (cstep s e)) (fst (cstep s e)).
 Proof.
   intros H p. specialize (H p). rewrite c_out_tags_app, c_frame_tags_app, !cntN_app.
-  destruct e as [w|w ft|f|w|w|w|w].
+  destruct e as [w|w ft|f|w|w|w|w|].
   - simpl. pose proof (c_held_aset_none p w (c_wait s)). unfold cntN in *; simpl. lia.
   - simpl. pose proof (c_held_aset_none p w (c_wait s)). unfold cntN in *; simpl. lia.
   - rewrite cstep_frame. destruct (c_frame_answer f) as [[key [q em]]|] eqn:Ea.
@@ -295,6 +297,7 @@ Proof.
     pose proof (c_held_adel_le p w (c_wait s)). unfold cntN in *; simpl. lia.
   - simpl. destruct (wget w (c_wait s)) as [d|] eqn:E; simpl; [|unfold cntN in *; simpl; lia].
     pose proof (c_held_adel_le p w (c_wait s)). unfold cntN in *; simpl. lia.
+  - simpl. unfold cntN in *; simpl. lia.
   - simpl. unfold cntN in *; simpl. lia.
 Qed.
 
@@ -431,7 +434,7 @@ Qed.
 Lemma CI_step h o s e :
   NoDup (c_req_waiters (h ++ [e])) -> CI h o s -> CI (h ++ [e]) (o ++ snd (cstep s e)) (fst (cstep s e)).
 Proof.
-  intros F I. destruct e as [w|w ft|f|w|w|w|w].
+  intros F I. destruct e as [w|w ft|f|w|w|w|w|].
   - simpl. rewrite app_nil_r. now apply (CI_req h o s (CReq w) w).
   - simpl. rewrite app_nil_r. now apply (CI_req h o s (CReqAuth w ft) w).
   - rewrite cstep_frame. destruct (c_frame_answer f) as [[key d]|] eqn:Ea; simpl.
@@ -460,6 +463,7 @@ Proof.
     eapply CI_finish; eauto; try reflexivity; try (intros w1 N M; simpl in M; congruence).
   - simpl. apply (CI_silent h _ s); auto; [|simpl; tauto].
     apply CI_silent_out; [intros w' []|assumption].
+  - simpl. rewrite app_nil_r. apply (CI_silent h o s); auto. simpl; tauto.
 Qed.
 
 Lemma CI_reach x0 h : NoDup (c_req_waiters h) ->
@@ -497,4 +501,14 @@ Proof.
   { unfold c_outcomes. apply in_split in Hy as (l1 & l2 & ->). rewrite filter_app, app_length. simpl.
     rewrite (proj2 (c_mentionsb_spec w y) My). simpl. lia. }
   lia.
+Qed.
+
+(* a fire-and-forget send uses up its own transaction id: no later exchange waits under it *)
+Lemma send_xid_not_reused x0 h1 h2 r xb :
+  c_key_at (final cstep (c_init x0) (h1 ++ CSend :: h2)) r = Some (CX xb) ->
+  (c_next (final cstep (c_init x0) h1) < xb)%N.
+Proof.
+  rewrite final_app. set (s := final cstep (c_init x0) h1). simpl.
+  intro K. destruct r; simpl in K; try discriminate. inversion K; subst xb.
+  pose proof (c_next_mono (MkC (N.succ (c_next s)) (c_q s) (c_wait s)) h2). simpl in H. lia.
 Qed.
